@@ -34,3 +34,7 @@ check("C08", "Hypothesis collections with planted failures at every stage; diffe
       "Collections of 1-6 single/multi-condition rules in which any subset fails at one of ten stages (pipeline failure items, unresolved placeholder, bool/CIDR keyword, unsupported value kind, missing detection, later condition, negated leaf in not-equals mode), with and without pipeline and error collection, compared with fresh per-rule conversions (new backend class, new pipeline).",
       "String comparison of queries; errors compared by type and message.",
       "DESIGN.md section 3, C08")
+check("C06", "Hypothesis documents (rules with full metadata, all correlation types, filters, rules after one of 25 transformations); round-trip oracle on dict form and queries",
+      "from_dict -> to_dict -> from_dict (and through YAML text) must be a fixed point of the dict form and must not change the queries; after a pipeline transformation to_dict() must either raise a SigmaError or reload to an object that converts like the transformed one.",
+      "Queries compared as strings of one backend; correlation rules and filters converted inside a small collection.",
+      "DESIGN.md section 3, C06")
